@@ -49,7 +49,8 @@ REJECTIONS = {
 @st.composite
 def histories(draw, first=None):
     prof = Profile(vrl=[512, 8192], max_frames=2, max_channels=3, max_rows=5, max_width=2, meta_kinds=META,
-                   max_meta=5, units=False, name_pool=['P', 'Q', 'R-1'], byte_orders=('<',), noformat=0)
+                   max_meta=5, units=False, name_pool=['P', 'Q', 'R-1'], byte_orders=('<',), noformat=0,
+                   sources=('inline', 'inline', 'dict', 'struct'))
     spec = draw(file_specs(prof))
     ops = spec['lfs'][0]['ops']
     nbad = draw(st.integers(1, 3))
@@ -60,6 +61,10 @@ def histories(draw, first=None):
         bad = copy.deepcopy(REJECTIONS[kind])
         bad['bad'] = kind
         t = bad['t']
+        if t == 'channel' and 'data_raw' not in bad and draw(st.booleans()):
+            # the rejected call was handed an array (whatever the route by which the valid channels get their data)
+            bad['data'] = {'dt': '<f4', 'shape': [draw(st.integers(1, 5))], 'pat': [3, 1]}
+            bad['data_inline'] = True
         same = [j for j, op in enumerate(ops) if op['t'] == t and not op.get('bad')]
         # a later valid op of the same type and name makes copy-number shifts visible
         if same and draw(st.integers(0, 3)):
@@ -173,6 +178,8 @@ def failed_writes(draw, stratum=None):
         if stratum:
             case['assign'] = [(stratum.split('/')[1], draw(st.integers(0, 7)))] + case['assign']
         case['derive_index'] = draw(st.booleans())
+        # a third of the time the rejected assignments come before the file was ever written
+        case['first_write'] = draw(st.integers(0, 2)) != 0
     return case
 
 
@@ -188,6 +195,10 @@ BAD_ASSIGNMENTS = {
     'channel.element_limit': ('channel', 'element_limit', [2.5]),
     'channel.representation_code': ('channel', 'representation_code', 'zzz'),
     'channel.units': ('channel', 'units', 5), 'channel.long_name': ('channel', 'long_name', 5),
+    # plain properties of the item (no Attribute object): '@name' means setattr(item, name, value)
+    'channel.cast_dtype-int64': ('channel', '@cast_dtype', 'np:int64'),
+    'channel.cast_dtype-str': ('channel', '@cast_dtype', 'float64'),
+    'channel.cast_dtype-bool': ('channel', '@cast_dtype', 'np:bool_'),
 }
 
 
@@ -272,12 +283,16 @@ class C20(Property):
         path = ctx.path()
         try:
             kw = B.write_kwargs(spec)
+            data = B.make_source(filtered(spec), b, ctx.scratch)     # (the data of the valid channels only)
+            if data is not None:
+                kw['data'] = data
             b.df.write(path, **kw)
             with open(path, 'rb') as f:
                 mine = ('written', f.read(), None)
         except Exception as exc:
             tn, site = dw.exc_site(exc)
             mine = ('raised', None, f"{tn}@{site}: {exc}"[:300])
+        labels.append('src:' + (spec.get('write') or {}).get('source', 'inline'))
         oc, theirs, exc = self.fresh.write(filtered(spec))
         viol = []
         cls = self.after_registration(bad_kinds)
@@ -466,17 +481,22 @@ class C20(Property):
             return Result([], labels, False, 'invalid-base')
         data = B.make_source(spec, b, ctx.scratch)
         kw = B.write_kwargs(spec)
-        try:
-            b.df.write(ctx.path(), data=data, **kw)
-        except Exception:
-            return Result([], labels, False, 'invalid-base')
+        if case.get('first_write', True):
+            try:
+                b.df.write(ctx.path(), data=data, **kw)
+            except Exception:
+                return Result([], labels, False, 'invalid-base')
+        else:
+            labels.append('assignments-before-first-write')
         for key, sel in case['assign']:
             kind, attr, val = BAD_ASSIGNMENTS[key]
             objs = [j for j, op in enumerate(ops) if op['t'] == kind]
             item = b.items[(0, objs[sel % len(objs)])]
-            a = getattr(item, attr)
             try:
-                a.value = val
+                if attr.startswith('@'):
+                    setattr(item, attr[1:], getattr(np, val[3:]) if isinstance(val, str) and val.startswith('np:') else val)
+                else:
+                    getattr(item, attr).value = val
             except Exception:
                 labels.append('assign:' + key)
                 continue
